@@ -140,6 +140,13 @@ class ParticleReleaser(Iterator[pd.DataFrame]):
         # Make dataframes for each timeframe
         self._B = [x[1] for x in self._df.groupby(self._df.index, sort=False)]
 
+        # The release times in simulation order (the file need not be ordered in
+        # time and a time-reversed run meets the times in the opposite order)
+        order = np.argsort(self.steps, kind="stable")
+        self.times = self.times[order]
+        self.steps = [self.steps[i] for i in order]
+        self._B = [self._B[i] for i in order]
+
         # # Read the particle variables
         self._index = 0  # Index of next release
         self._particle_count = warm_particle_count
